@@ -610,3 +610,7 @@ PROPS["C16"]["proofs"] = PROPS["C16"]["proofs"] + ["Bmc.Proofs.EndToEnd.EnumC16"
 PROPS["C16"]["claim"] += (" END TO END: generated_RetrieveSupportedCipherSuites_complete, generated_getEntityInstances_pages (Proofs/EndToEnd/EnumC16.lean) — the paging loops AS "
                           "TRANSLATED ON THIS RUN return every entry / record ID of any conforming BMC, in order, asking for each page exactly once (hypotheses on the BMC "
                           "restricted by congruence lemmas to the indices the loops can ask for, and shown satisfiable).")
+PROPS["C01"]["proofs"] = PROPS["C01"]["proofs"] + ["Bmc.Proofs.EndToEnd.HandshakeC01"]
+PROPS["C01"]["claim"] += (" END TO END (liveness / key agreement): hsRun_live, hsRun_against_spec_bmc, generated_newV2Session_live (Proofs/EndToEnd/HandshakeC01.lean) — against a BMC "
+                          "whose three set-up exchanges end with what the specification's BMC sends (same password and K_G; it answers only the RAKP 3 code it expects), newV2Session AS "
+                          "TRANSLATED ON THIS RUN returns a session whose SIK, K1, K2 are the ones the BMC derives on its own from the fields it received.")
